@@ -306,7 +306,29 @@ impl<Aux> Vm<'_, Aux> {
         let src = func.pos;
         let end = program.bytecode.len() - 1;
         let len = self.runtime_data.value_stack.len() as u32;
+        let stack_offset = len
+            .checked_sub(arity)
+            .ok_or(ExecutionErrorPayload::MissingArgument)?;
+        let frames = self.runtime_data.call_stack.len();
 
+        if let Err(err) = self.run_in_new_frames(src, end as u32, stack_offset, closure) {
+            // the callee did not return. Drop what it left behind: a host function may carry on
+            // after the error and must find both stacks as they were before the call
+            self.unwind_failed_call(frames, stack_offset);
+            return Err(err);
+        }
+        // pop the trap callframe
+        self.runtime_data.call_stack.pop();
+        Ok(self.stack_pop())
+    }
+
+    fn run_in_new_frames(
+        &mut self,
+        src: u32,
+        end: u32,
+        stack_offset: u32,
+        closure: *mut CaoLangClosure,
+    ) -> Result<(), ExecutionErrorPayload> {
         // a function call needs 2 stack frames, 1 for the current scope, another for the return
         // address
         //
@@ -317,20 +339,34 @@ impl<Aux> Vm<'_, Aux> {
                 .call_stack
                 .push(CallFrame {
                     src_instr_ptr: src,
-                    dst_instr_ptr: end as u32,
-                    stack_offset: len
-                        .checked_sub(arity)
-                        .ok_or(ExecutionErrorPayload::MissingArgument)?,
+                    dst_instr_ptr: end,
+                    stack_offset,
                     closure,
                 })
                 .map_err(|_| ExecutionErrorPayload::CallStackOverflow)?;
         }
 
         let mut instr_ptr = src as usize;
-        self._run(&mut instr_ptr).map_err(|err| err.payload)?;
-        // pop the trap callframe
-        self.runtime_data.call_stack.pop();
-        Ok(self.stack_pop())
+        self._run(&mut instr_ptr).map_err(|err| err.payload)
+    }
+
+    /// Drops the call frames above `frames` and the values above `stack_offset`
+    fn unwind_failed_call(&mut self, frames: usize, stack_offset: u32) {
+        while self.runtime_data.call_stack.len() > frames {
+            self.runtime_data.call_stack.pop();
+        }
+        // captured locals outlive the frames they were declared in, like they do on `Return`
+        let stack_start_location = unsafe {
+            self.runtime_data
+                .value_stack
+                .as_slice()
+                .as_ptr()
+                .add(stack_offset as usize)
+        };
+        let _ = instr_execution::close_upvalues_from(self, stack_start_location);
+        self.runtime_data
+            .value_stack
+            .clear_until(stack_offset as usize);
     }
 
     fn _run(&mut self, instr_ptr: &mut usize) -> ExecutionResult<()> {
